@@ -86,6 +86,7 @@ func (w *Worker) Run(entry *ssa.Function, harness string, prefix []int32, wantSa
 	i.mapOrder = i.baseMapOrder
 	i.nowTick = 0
 	i.onSortSlice = nil
+	i.interfered = 0
 	i.gobst = nil
 	i.syncObjs = make(map[*value]*syncObj)
 	i.schedInit()
